@@ -478,6 +478,7 @@ type runner struct {
 	wrote      map[int64]*wpoint
 	epochs     map[string][]epoch // sink key -> which from-node definition recorded from which index on
 	hung       string             // set when a call into the real code did not return (the process must then exit)
+	noiseSeen  int                // noise points found in the sinks' recordings (they were routed to tasks of the case)
 }
 
 type epoch struct {
@@ -486,31 +487,67 @@ type epoch struct {
 	i    int
 }
 
-// startNoise (race-detector runs): a background goroutine keeps writing points to a database no task declares, so
-// that forkPoint runs concurrently with StartTask / StopTask / DeleteTask (which the harness otherwise serialises
-// against the forking of the case's own points). The noise reaches no sink.
+// startNoise (race-detector runs): a background goroutine hammers WritePoints while the case runs, so that forkPoint
+// overlaps StartTask / a failing StartTask / StopTask / DeleteTask (which the harness otherwise serialises against the
+// forking of the case's own points). Six of seven noise points go to the databases, retention policies and
+// measurements the tasks of the case subscribe to: they ARE routed to the very edges delFork closes while they are
+// on their way (a Collect on a closed edge is a process-killing panic: theorem never_sends_on_closed_edge says the
+// model never does it, tm.mu is what must prevent it in the code); the seventh goes to a pair nobody declares. Noise
+// points carry ids >= noiseBase; the sinks' recordings are read without them (realCount, sinkIDs), so the verdict on
+// the case's own points is taken as in every other case.
+const noiseBase = int64(1) << 40
+
 func (r *runner) startNoise() {
 	r.noiseStop, r.noiseDone = make(chan struct{}), make(chan struct{})
 	go func() {
 		defer close(r.noiseDone)
+		rps := []string{"autogen", "r2", ""}
 		for n := int64(0); ; n++ {
 			select {
 			case <-r.noiseStop:
 				return
 			default:
 			}
-			mp, err := imodels.NewPoint("noise", imodels.NewTags(nil), imodels.Fields{"n": n}, baseTime)
+			db, rp, name := genDBs[n%2], rps[(n/2)%3], genNames[(n/6)%int64(len(genNames))]
+			if n%7 == 6 {
+				db, rp, name = "d9", "noise", "noise"
+			}
+			mp, err := imodels.NewPoint(name, imodels.NewTags(map[string]string{"host": "a"}), imodels.Fields{"id": noiseBase + n, "v": n % 10}, baseTime)
 			if err != nil {
 				return
 			}
 			atomic.AddInt64(&r.noise, 1)
-			if r.tm.TM.WritePoints("d9", "noise", imodels.ConsistencyLevelAll, []imodels.Point{mp}) != nil {
+			if r.tm.TM.WritePoints(db, rp, imodels.ConsistencyLevelAll, []imodels.Point{mp}) != nil {
 				atomic.AddInt64(&r.noise, -1)
 				return
 			}
-			time.Sleep(20 * time.Microsecond)
+			time.Sleep(40 * time.Microsecond)
 		}
 	}()
+}
+
+func isNoise(m edge.Message) bool {
+	if pm, ok := m.(edge.PointMessage); ok {
+		if id, ok := pm.Fields()["id"].(int64); ok {
+			return id >= noiseBase
+		}
+	}
+	return false
+}
+
+// realCount: how many points of the case (not noise) the sink holds.
+func (r *runner) realCount(key string) int {
+	msgs := r.tm.Rec.Get(key)
+	if r.noiseDone == nil {
+		return len(msgs)
+	}
+	n := 0
+	for _, m := range msgs {
+		if !isNoise(m) {
+			n++
+		}
+	}
+	return n
 }
 
 func (r *runner) stopNoise() {
@@ -609,7 +646,7 @@ func (r *runner) waitSinks(ids map[string]bool, settle bool) {
 			// edges are balanced and have not moved for 400 ms: nothing more can arrive.
 			prevFP, stableSince, lastSnap := "", time.Time{}, time.Time{}
 			for n := 0; ; n++ {
-				if len(r.tm.Rec.Get(k)) >= r.expected[k] {
+				if r.realCount(k) >= r.expected[k] {
 					break
 				}
 				now := time.Now()
@@ -637,8 +674,8 @@ func (r *runner) waitSinks(ids map[string]bool, settle bool) {
 			}
 		}
 	}
-	if !settle {
-		return
+	if !settle || r.noiseStop != nil {
+		return // (under the hammer the edges never come to rest)
 	}
 	prev := ""
 	for n := 0; n < 200; n++ {
@@ -1071,12 +1108,13 @@ func urlEsc(s string) string {
 // dimensions (groupBy / groupByMeasurement of ITS from-node).
 func (r *runner) sinkIDs(key string) string {
 	msgs := r.tm.Rec.Get(key)
-	if len(msgs) == 0 {
-		return "-"
-	}
 	eps := r.epochs[key]
 	var s []string
 	for n, m := range msgs {
+		if isNoise(m) {
+			r.noiseSeen++
+			continue
+		}
 		pm, ok := m.(edge.PointMessage)
 		if !ok {
 			s = append(s, "x")
@@ -1147,6 +1185,9 @@ func (r *runner) sinkIDs(key string) string {
 		}
 		s = append(s, tok+"|"+obsPoint(pm))
 	}
+	if len(s) == 0 {
+		return "-"
+	}
 	return strings.Join(s, ",")
 }
 
@@ -1200,7 +1241,7 @@ func execCase(ops []string) (out []string, hung string) {
 			line = line[:i]
 		}
 		t := strings.Fields(line)
-		if len(t) == 0 || t[0] == "final" || t[0] == "quiesce" {
+		if len(t) == 0 || t[0] == "final" || t[0] == "quiesce" || t[0] == "race" {
 			continue
 		}
 		if t[0] == "cfg" && len(t) >= 2 {
@@ -1420,6 +1461,9 @@ func execCase(ops []string) (out []string, hung string) {
 		for i := 0; i < r.everDef[id]; i++ {
 			out = append(out, fmt.Sprintf("final %s %d => %s", kit.Esc(id), i, r.sinkIDs(sinkKey(id, i))))
 		}
+	}
+	if noisy {
+		out = append(out, fmt.Sprintf("race hammer => %d", r.noiseSeen))
 	}
 	out = append(out, fmt.Sprintf("quiesce => %d", r.timeouts))
 	return out, r.hung
